@@ -37,6 +37,7 @@ type SecureAead struct {
 	secret []byte
 	aead   cipher.AEAD
 	nonce  []byte
+	remain []byte // decrypted bytes of the last frame not yet returned by Read
 }
 
 const (
@@ -117,6 +118,11 @@ func (sa *SecureAead) increaseNonce() {
 	}
 }
 func (sa *SecureAead) Read(b []byte) (n int, err error) {
+	if len(sa.remain) > 0 {
+		n = copy(b, sa.remain)
+		sa.remain = sa.remain[n:]
+		return
+	}
 	frame := make([]byte, secureConnFrameSize)
 	_, err = io.ReadFull(sa.conn, frame[:secureConnHeaderSize])
 	if err != nil {
@@ -135,7 +141,9 @@ func (sa *SecureAead) Read(b []byte) (n int, err error) {
 	}
 	sa.increaseNonce()
 
-	copy(b, frame[:n])
+	plain := frame[:n]
+	n = copy(b, plain)
+	sa.remain = plain[n:]
 	return
 }
 
